@@ -116,6 +116,65 @@ class compute_block_id:
                     yield {"ind": ind, "idx_to_block": m, "numblocks": nb}
 
 
+def _sorted(seq):
+    """non-decreasing (all pairs; the form the cumulative-sum lemma `cum_sorted` delivers at the call site)"""
+    if isinstance(seq, (tuple, list)):
+        return all(a <= b for a, b in zip(seq, seq[1:]))
+    import z3
+    t = seq.t
+    j, k = z3.Ints("j!srt k!srt")
+    return z3.ForAll([j, k], z3.Implies(z3.And(0 <= j, j <= k, k < S.f_len(t)), S.f_at(t, j) <= S.f_at(t, k)),
+                     patterns=[z3.MultiPattern(S.f_at(t, j), S.f_at(t, k))])
+
+
+@contract(f"{BW}::Blockwise._accept_slice_coarse.<locals>.find_block_range", props=["C02", "C04"])
+class find_block_range:
+    """the blocks a unit-step range [start, stop) of an axis touches, given the axis' cumulative block boundaries
+    (0, c0, c0+c1, ...): `first` is the block that holds element `start`, `last` the block that holds element
+    `stop - 1` (first - 1 for an empty range); (None, None) exactly when `start` lies at or beyond the end of the axis.
+    Every block the range touches lies in first..last, so culling the others loses nothing."""
+    params = {"cumsum": "seq", "start": "int", "stop": "int"}
+    result = "tup:optint,optint"
+
+    def requires(cumsum, start, stop):
+        n = S.slen(cumsum)
+        return S.And(n >= 2, S.at(cumsum, 0) == 0, _sorted(cumsum),
+                     0 <= start, start <= stop, stop <= S.at(cumsum, n - 1))
+
+    def facts(cumsum, start, stop):
+        return []
+
+    def ensures(result, cumsum, start, stop):
+        n = S.slen(cumsum)
+        first, last = result.items if hasattr(result, "items") else result
+        total = S.at(cumsum, n - 1)
+        inb = S.Not(S.is_none(first))
+        f, l = S.val(first), S.val(last)
+        return {
+            "none-exactly-when-start-is-past-the-end": S.is_none(first) == (start >= total),
+            "both-or-neither": S.is_none(first) == S.is_none(last),
+            "first-holds-start": S.Implies(inb, S.lazy_implies(inb, lambda: S.And(
+                0 <= f, f < n - 1, S.at(cumsum, f) <= start, start < S.at(cumsum, f + 1)))),
+            "last-holds-the-last-element": S.Implies(S.And(inb, stop > start), S.lazy_implies(S.And(inb, stop > start), lambda: S.And(
+                f <= l, l < n - 1, S.at(cumsum, l) <= stop - 1, stop - 1 < S.at(cumsum, l + 1)))),
+            "empty-range": S.Implies(S.And(inb, stop == start), l == f - 1),
+        }
+
+    def call(fn, cumsum, start, stop):
+        import numpy as np
+        return fn(np.array(cumsum), start, stop)
+
+    def domain(tier, rng):
+        from contracts.slicing import chunkings
+        for n, c in chunkings(6 if tier == "quick" else 8):
+            cs = [0]
+            for x in c:
+                cs.append(cs[-1] + x)
+            for a in range(0, n + 1):
+                for b in range(a, n + 1):
+                    yield {"cumsum": tuple(cs), "start": a, "stop": b}
+
+
 def _idx_to_block(rank):
     @contract(f"{BW}::Blockwise._idx_to_block", spec=f"rank{rank}", props=["C20", "C02", "C04"])
     class idx_to_block:
